@@ -133,8 +133,23 @@ class Prop:
 
 BUILD_BUFS = 'e0:aa,e0:55,e-1:aa,e5:55,a0:00,a3:aa'
 
-def gen_builds(g, n, kinds, invalid_ratio=0.2, bufs=BUILD_BUFS):
+def big_members(g, kinds, tier='quick'):
+    """packets above 64 KiB (length field 0x4000 and more): the 16-bit length arithmetic of the writers"""
     out = []
+    sizes = [65536] if tier == 'quick' else [65532, 65536, 131072, 262140]
+    for sz in sizes:
+        if 'app' in kinds:
+            out.append('app 0 %d %d 6e616d65 %s' % (g.ssrc(), g.r.randrange(32), '00' * (sz - 8)))
+        if 'unk' in kinds:
+            out.append('unk 0 199 %d %s' % (g.r.randrange(32), '00' * sz))
+        if 'custom' in kinds:
+            out.append('custom 199 4 %d 0 %s' % (g.r.randrange(32), '00' * sz))
+    return out
+
+def gen_builds(g, n, kinds, invalid_ratio=0.2, bufs=BUILD_BUFS, big=True, tier='quick'):
+    out = []
+    if big:
+        out += ['build %s %s' % (bufs.split(',')[0] if bufs != '-' else '-', m) for m in big_members(g, kinds, tier)]
     for _ in range(n):
         k = g.pick(kinds)
         valid = not g.chance(invalid_ratio)
@@ -248,8 +263,18 @@ class RoundTrip(Prop):
         return g.sdes(valid=valid) if k == 'sdes' else getattr(g, k)(valid=valid)
     def cases(self, g, tier, h):
         n = 400 if tier == 'quick' else 12000
-        return ['build e0:00 ' + self.gen_member(g, not g.chance(0.1)) for _ in range(n)]
+        # the round trip goes through an exact-size buffer with this prefill (writers must define every byte)
+        out = ['build e0:%s %s' % (g.pick(['00', '00', 'ff', 'aa', '55', '6c', '01', '80', 'e0']),
+                                   self.gen_member(g, not g.chance(0.1))) for _ in range(n)]
+        out += ['build e0:aa ' + m for m in big_members(g, self.members, tier)]
+        # the same kinds of configuration reached through other call paths (owned variants, PacketBuilder,
+        # setters repeated): what is accepted must still parse back to the final configuration
+        from . import props2
+        out += [l for l in props2.history_cases(g, n // 4, kinds=self.members) if l.startswith('hist d ') or l.startswith('hist pb ')]
+        return out
     def relevant(self, line, impl, model):
+        if kind_of(line) == 'hist':
+            return ok_str(impl.get('size')) or ok_str(model.get('size'))
         return kind_of(line) == 'build' and member_type(line) in self.members and \
             (ok_str(impl.get('size')) or ok_str(model.get('size')))
     def proj(self, line, obs):
@@ -438,7 +463,12 @@ class C01(Prop):
             'inputs, random framed headers and raw FCI strings; non-trivial = distinct input not rejected by the version or '
             'type check')
     def cases(self, g, tier, h):
-        return gen_header_sweep(g, full=(tier != 'quick')) + gen_parse_mixed(g, h, 500 if tier == 'quick' else 20000, tier)
+        out = gen_header_sweep(g, full=(tier != 'quick')) + gen_parse_mixed(g, h, 500 if tier == 'quick' else 20000, tier)
+        # the largest length field (0xffff = 262144 bytes): 16-bit arithmetic in the iterator and the parsers
+        big = bytes([0x80 | g.r.randrange(32), 204, 0xff, 0xff]) + g.rawbytes(8) + bytes(262144 - 12)
+        out.append('parse compound %s' % hx(bytes([0x80, 201, 0, 1]) + g.rawbytes(4) + big + bytes([0x80, 203, 0, 0])))
+        out.append('parse packet %s' % hx(big))
+        return out
     def relevant(self, line, impl, model):
         return kind_of(line) == 'parse'
     def proj(self, line, obs):
@@ -742,6 +772,26 @@ class Engine:
                 if big and not ok_str(a.get('rt.r', '')):
                     ev['known'].setdefault(k['id'], '%s: %s' % (k['id'], k['text']))
 
+    def impl_probes(self, ev):
+        """Boundary probes (Prop.probes): configurations too large for the extracted model to execute in
+        reasonable time (e.g. 32767 FIR entries), run on the implementation alone and judged by a closed-form
+        rule that is a Coq theorem about the model / spec (named in the probe).  A failure is a failing input
+        like any other."""
+        probes = self.pd.probes(self.tier) if hasattr(self.pd, 'probes') else []
+        if not probes:
+            return 0
+        lines = [p[0] for p in probes]
+        ids = ['p%d' % i for i in range(len(lines))]
+        out = runner.run_cases(self.harness, ['%s %s' % (i, l) for i, l in zip(ids, lines)], 'probe')
+        for i, (line, judge, basis) in zip(ids, probes):
+            a = out.get(i)
+            if a is None:
+                raise Infra('no output for probe: ' + line[:100])
+            why = judge(a)
+            if why:
+                ev['fails'].append(dict(case=line, profile='debug', why=['%s (rule: %s)' % (why, basis)], impl=a, model={}))
+        return len(lines)
+
     def account(self, stats, line, a):
         k = kind_of(line)
         t = toks(line)
@@ -768,6 +818,7 @@ class Engine:
         lines = corpus + self.pd.cases(g, self.tier, self.helper)
         ev = self.evaluate(lines, stats)
         self.impl_only_known(ev)
+        total_probes = self.impl_probes(ev)
         widened = False
         total = len(lines)
         if ev['mism'] and not ev['fails']:
